@@ -279,13 +279,26 @@ class NativeSym(object):
             self.bad_input.append(name)
         path = os.path.join(self.scratch_dir(), name)
         os.makedirs(os.path.dirname(path), exist_ok=True)
-        block = bytes(range(256)) * 4096
+        self._files = getattr(self, "_files", {})
+        self._files[path] = [name, n, 0]
+        self._write_file(path)
+        return path, n
+
+    def _write_file(self, path):
+        import os
+        name, n, version = self._files[path]
+        block = bytes((b + 7 * version) % 256 for b in range(256)) * 4096          # other bytes for every version
         with open(path, "wb") as f:
             left = n
             while left > 0:
                 f.write(block[:min(left, len(block))])
                 left -= len(block)
-        return path, n
+        mt = int(self._get("%s.mtime%d" % (name, version), 1000000000 + version))
+        os.utime(path, (mt, mt))
+
+    def rewrite_file(self, path):
+        self._files[path][2] += 1
+        self._write_file(path)
 
     def scratch_dir(self):
         import tempfile
